@@ -27,12 +27,14 @@ pub struct CardCfg {
     pub max_access: u64,
     pub max_busy: u64,
     pub acmd41_reps: u64,
+    /// CMD0 frames slept through after power-on
+    pub sleepy: u32,
 }
 
 impl CardCfg {
     pub fn describe(&self) -> String {
         format!(
-            "{:?} crc={} capacity_blocks={} csd={} timing(ncr<={}, access<={}, busy<={}, acmd41<={})",
+            "{:?} crc={} capacity_blocks={} csd={} timing(ncr<={}, access<={}, busy<={}, acmd41<={}){}",
             self.kind,
             self.crc,
             csd_capacity_blocks(&self.csd),
@@ -40,7 +42,8 @@ impl CardCfg {
             self.max_ncr,
             self.max_access,
             self.max_busy,
-            self.acmd41_reps
+            self.acmd41_reps,
+            if self.sleepy > 0 { format!(" sleeps through {} CMD0", self.sleepy) } else { String::new() }
         )
     }
     pub fn hash(&self) -> u64 {
@@ -64,6 +67,7 @@ pub fn make_rig(cfg: &CardCfg) -> Rig {
     c.max_busy = cfg.max_busy;
     c.acmd41_reps = cfg.acmd41_reps;
     c.expect_crc = cfg.crc;
+    c.set_sleepy(cfg.sleepy);
     let nblocks = c.nblocks;
     let bus = new_bus(c);
     let sd = SdCard::new_with_options(SimSpi(bus.clone()), SimDelay(bus.clone()), AcquireOpts { use_crc: cfg.crc, acquire_retries: 50 });
@@ -133,6 +137,7 @@ pub fn card_cfgs(rng: &mut Rng, all_caps: bool) -> Vec<CardCfg> {
                     max_access: if hostile { 200 } else { rng.below(30) },
                     max_busy: if hostile { 2000 } else { rng.below(60) },
                     acmd41_reps: if hostile { 40 } else { rng.below(4) },
+                    sleepy: if rng.chance(1, 4) { 1 + rng.below(2) as u32 } else { 0 },
                 });
             }
         }
@@ -170,6 +175,12 @@ fn drain_c14(rig: &Rig, cfg: &CardCfg, context: &str, rep: &mut Report) -> bool 
 pub fn c12_history(cfg: &CardCfg, nops: usize, seed: u64, prop: &str, rep: &mut Report) {
     let mut rng = Rng::from_parts(&[seed, cfg.hash(), 12]);
     let mut rig = make_rig(cfg);
+    {
+        // most cards really pre-erase what a multiple-block write announces
+        let mut st = rig.bus.borrow_mut();
+        st.card.honour_pre_erase = (seed ^ cfg.seed) % 4 != 0;
+        st.card.erase_value = if (seed ^ cfg.seed) % 8 < 4 { 0xFF } else { 0x00 };
+    }
     let case = |extra: &str| J::obj().set("card", cfg.describe()).set("step", extra);
     let v12 = |rule: &str, call: &str, detail: &str, msg: String, c: J| Violation::new("C12", rule, call, detail, msg, c);
     // ---- identification, kind, capacity ------------------------------------------------------
@@ -316,12 +327,43 @@ pub fn c12_history(cfg: &CardCfg, nops: usize, seed: u64, prop: &str, rep: &mut 
                 }
             }
         } else {
+            // the caller's buffer is not empty: it holds whatever the application left in it, which
+            // must neither reach the card nor survive the read
             let mut blocks = vec![Block::new(); n];
-            for b in blocks.iter_mut() {
-                b.contents = [0xEE; 512];
+            let fill = rng.below(8);
+            for (k, b) in blocks.iter_mut().enumerate() {
+                match fill {
+                    0 => b.contents = [0xFF; 512],
+                    1 => b.contents = [0xEE; 512],
+                    2 => b.contents = [0x00; 512],
+                    3 | 4 | 5 => {
+                        // well-formed command frames back to back: stop transmission, go idle, read
+                        // block 0, write block (k+1) followed by a data token
+                        let arg: u32 = if cfg.kind == Kind::Sdhc { k as u32 + 1 } else { (k as u32 + 1) * 512 };
+                        let frames: [[u8; 5]; 4] = [[0x4C, 0, 0, 0, 0], [0x40, 0, 0, 0, 0], [0x51, 0, 0, 0, 0], [0x58, (arg >> 24) as u8, (arg >> 16) as u8, (arg >> 8) as u8, arg as u8]];
+                        let f = frames[(fill as usize - 3 + k) % 4];
+                        let mut pat = f.to_vec();
+                        pat.push(card::crc7_ref(&f));
+                        pat.extend_from_slice(&[0xFF, 0xFF, 0xFF, 0xFE]);
+                        for (i, x) in b.contents.iter_mut().enumerate() {
+                            *x = pat[i % pat.len()];
+                        }
+                    }
+                    _ => {
+                        for (i, x) in b.contents.iter_mut().enumerate() {
+                            *x = crate::fsx::payload_byte(0x5EED ^ opi as u32, (k * 512 + i) as u32);
+                        }
+                    }
+                }
             }
+            let mem_before: HashMap<u32, [u8; 512]> = rig.bus.borrow().card.mem.clone();
             let bound = rig.initialised_bound(n);
             let r = rig.call(bound, |sd| sd.read(&mut blocks, BlockIdx(idx)).map(|_| ()));
+            if rig.bus.borrow().card.mem != mem_before {
+                let step = format!("op {} read {} blocks @ {}", opi, n, idx);
+                rep.violate(v12("C12.write-elsewhere", "read", "card memory changed", format!("{}: the card's memory changed during a read [{}]", step, cfg.describe()), case(&step)));
+                return;
+            }
             let step = format!("op {} read {} blocks @ {}", opi, n, idx);
             match r {
                 Err((pm, loc)) => {
@@ -695,12 +737,16 @@ fn c13_case(cfg: &CardCfg, op: OpK, fault: &FaultSpec, which_block: u32, label: 
 fn c13_cfgs(rng: &mut Rng, quick: bool) -> Vec<CardCfg> {
     let mut v = Vec::new();
     // (response delay, data-token delay, busy length, ACMD41 repetitions): prompt, sluggish, seeded
-    let timings: Vec<(u64, u64, u64, u64)> = if quick { vec![(3, 6, 9, 2), (8, 60, 300, 12)] } else { vec![(3, 6, 9, 2), (8, 60, 300, 12), (0, 0, 0, 0), (8, 250, 2500, 50), (rng.below(9), rng.below(100), rng.below(1000), rng.below(30))] };
+    let timings: Vec<(u64, u64, u64, u64)> = if quick { vec![(3, 6, 9, 2), (8, 60, 300, 12)] } else { vec![(3, 6, 9, 2), (8, 60, 300, 12), (0, 0, 0, 0), (8, 250, 2500, 50), (rng.below(9), rng.below(100), rng.below(1000), rng.below(30)), (rng.below(9), rng.below(20), rng.below(100), rng.below(6)), (1, rng.below(300), rng.below(3000), rng.below(60)), (rng.below(9), 1, 1, 1), (8, rng.below(10), rng.below(2000), 0)] };
     for kind in [Kind::V1Sdsc, Kind::V2Sdsc, Kind::Sdhc] {
         for crc in [true, false] {
             for (ti, t) in timings.iter().enumerate() {
                 let csd = if kind == Kind::Sdhc { build_csd_v2(if ti % 2 == 0 { 0x1000 } else { 0x3_0000 }) } else { build_csd_v1(if ti % 2 == 0 { 0x7FF } else { 0xFFF }, 6, 9 + (ti as u32 % 2)) };
-                v.push(CardCfg { kind, csd, crc, seed: rng.next_u64(), max_ncr: t.0, max_access: t.1, max_busy: t.2, acmd41_reps: t.3 });
+                v.push(CardCfg { kind, csd, crc, seed: rng.next_u64(), max_ncr: t.0, max_access: t.1, max_busy: t.2, acmd41_reps: t.3, sleepy: 0 });
+                if ti == 0 {
+                    // the same prompt card, but it sleeps through the first CMD0
+                    v.push(CardCfg { kind, csd, crc, seed: rng.next_u64(), max_ncr: t.0, max_access: t.1, max_busy: t.2, acmd41_reps: t.3, sleepy: 1 });
+                }
             }
         }
     }
